@@ -519,6 +519,17 @@ def crash_top(err):
     return "\n".join(keep) if keep else err[:400]
 
 
+def build_harness():
+    """the object cache is shared with the other checks, whose pruning can remove an object between compile and link: retry"""
+    for attempt in range(3):
+        try:
+            return vlib.build_repo.build_harness(HARNESS, "h_population", link_repo=True)
+        except RuntimeError as e:
+            if "cannot find" not in str(e) or attempt == 2:
+                raise
+            time.sleep(1.0)
+
+
 def new_stats():
     return {"scenarios": 0, "states": 0, "use_states": 0, "couplings": 0, "derefs": 0, "divisions": 0, "removals": 0,
             "div_attempts": 0, "replayed_states": 0, "checked_states": 0, "disagreements": 0, "cells_max": 0,
@@ -539,7 +550,7 @@ def run(ctx):
         ok, log = vlib.leanchecker("SimuVerif.Properties.C08")
         if not ok:
             V.fail_tie("proof", "leanchecker rejected SimuVerif.Properties.C08", log=log)
-    exe, rebuilt = vlib.build_repo.build_harness(HARNESS, "h_population", link_repo=True)
+    exe, rebuilt = build_harness()
     n = 60 if tier == "quick" else 1500
     if not proof["ok"]:
         n = max(n, 200)        # a proof broke: widen the search for a concrete failing input
@@ -603,7 +614,7 @@ def replay(ctx):
     if not line:
         print("replay file names no input: %s" % json.dumps(rp.get("no_longer_checks", rp))[:2000])
         return 1
-    exe, _ = vlib.build_repo.build_harness(HARNESS, "h_population")
+    exe, _ = build_harness()
     sc = dict(kv.split("=", 1) for kv in line.split()[1:])
     (rec, status, errtail), = run_harness(exe, [sc])
     V = vlib.Verdict(PID)
